@@ -1,10 +1,24 @@
 import PfVerif.Driver.C01
+import PfVerif.Driver.C12
+import PfVerif.Driver.C20
 namespace PfVerif.Driver
 open Lean
 
 def dispatch (op : String) (j : Json) : R Json :=
   match op with
   | "pl" => opPl j
+  | "payoff" => opPayoff j
+  | "clauses" => opClauses j
+  | "var_swap" => opVarSwap j
+  | "grid" => opGrid j
+  | "ttm" => opTtm j
+  | "clamp" => opClamp j
+  | "ww" => opWw j
+  | "ww_width" => opWwWidth j
+  | "svi" => opSvi j
+  | "bilerp" => opBilerp j
+  | "box_muller" => opBoxMuller j
+  | "bisect" => opBisect j
   | _ => .error s!"unknown op {op}"
 
 end PfVerif.Driver
